@@ -146,11 +146,15 @@ class Real:
         self.sock._message_queue.clear()
         self.fw.data = bytearray()
         self.fw.writes = 0
+        self.partial = b""
         self.cap.records.clear()
 
     def _written(self):
         for r in self.cap.records:
             if str(r.msg).startswith("Encoding error for message") and r.exc_info:
+                # a message the send path gives up on must leave nothing on the wire (a header announcing a payload that never
+                # comes makes the NEXT frame unreadable)
+                self.partial = bytes(self.fw.data)
                 return "ENCERR:" + ename(r.exc_info[1]), None
         if self.sock._message_queue:
             return "ENCERR:?queued", None
@@ -443,6 +447,12 @@ def run_gen(ctx, gen, n):
                            "model %r != implementation %r (pid %d) for the message delivered from %s" % (m_send[:300], r_send[:300], pid, codec.hx(b)),
                            input=[gen, pid, codec.hx(b)])
         ctx.count("%d:resend:%s" % (gen, "ok" if sent is not None else r_send))
+        if sent is None and real.partial:
+            key = "partial-frame:" + canon(m).split("(")[0]
+            if key not in worst:
+                worst[key] = (b, canon(m), "the send path gave up on this message (%s) after writing %d bytes (%s): the announced payload never follows, the next frame on the "
+                              "connection cannot be read" % (r_send, len(real.partial), codec.hx(real.partial)))
+            continue
         if m_wf != "1":
             ctx.count("%d:not-well-formed" % gen)
             continue
